@@ -405,6 +405,16 @@ class Ctx:
                 r = _exact_root(fr, degree)
                 if r is not None:
                     return SR(rv(r), c=r)
+        if degree == 2 and getattr(self, "intern_roots", True) and _has_div(arg):
+            # norm of an already normalised column: sum_i (x_i/n)^2 with n*n folded back to sum_j x_j^2 is identically 1 wherever
+            # the denominators are non-zero (definedness assumption); refuted by one random evaluation when it is not
+            try:
+                if self.identical(arg, z3.RealVal(1)):
+                    return SR(rv(Fraction(1)), c=Fraction(1))
+            except BudgetExceeded:
+                raise
+            except Exception:
+                pass
         core, isabs = _strip_abs(arg)
         if nn and not any(p.eq(core) for p in self.nonneg_pool):
             self.nonneg_pool.append(core)
@@ -455,6 +465,25 @@ class Ctx:
                     p = p * v
                 out.append(z3.Implies(a >= 0, p == a))
         return out
+
+
+def _has_div(t, _budget=[0]):
+    """does the term contain a division by a non-constant? (bounded traversal)"""
+    seen = set()
+    stack = [t]
+    n = 0
+    while stack and n < 4000:
+        x = stack.pop()
+        i = x.get_id()
+        if i in seen:
+            continue
+        seen.add(i)
+        n += 1
+        if z3.is_app(x):
+            if x.decl().kind() == z3.Z3_OP_DIV and not z3.is_rational_value(x):
+                return True
+            stack.extend(x.children())
+    return False
 
 
 def _zero_const(o):
